@@ -255,13 +255,52 @@ class WindowMonitor:
             w = mon.window
             if w is not None:
                 w["called"].add(id(self_e))
-                if id(self_e) not in w["allowed"] and (self_e.obs, self_e.obs_ne) == _where_key(w["where"]):
+                if w["where"][0] != "end" and id(self_e) not in w["allowed"] and (self_e.obs, self_e.obs_ne) == _where_key(w["where"]):
                     mon.viol.append(("postponed-or-stopped-candidate-was-expanded", w["where"],
                                      f"next() called on {self_e.key} delayed={self_e.delayed} stop={self_e.stop} in round {w['round']}"))
             return mon.orig_next(self_e, *a, **kw)
 
+        self.orig_end = B.BaseMatcher._match_non_emitting_states_end
+
+        def end(self_m, cur_lattice, obs_idx, obs_next, lattice_best, expand=False):
+            # the step that links the candidates of a non-emitting layer to the next observation: every live candidate that
+            # is not postponed (delayed <= round) and has a successor the search may take is expanded here
+            r = self_m.expand_now
+            should = {}
+            for m in cur_lattice.values():
+                if m.stop or m.delayed > r:
+                    continue
+                try:
+                    if m.edge_m.l2 is not None:
+                        nb = self_m.map.edges_nbrto((m.edge_m.l1, m.edge_m.l2)) or []
+                        ok = any(l2 != m.edge_m.l1 and l2 != m.edge_m.l2 and not self_m._node_in_prev_ne(m, l2) for _, _, l2, _ in nb)
+                    else:
+                        nb = self_m.map.nodes_nbrto(m.edge_m.l1) or []
+                        ok = any(l != m.edge_m.l1 and not self_m._node_in_prev_ne(m, l) for l, _ in nb)
+                except Exception:
+                    ok = False
+                if ok:
+                    should[id(m)] = m
+            w = {"where": ("end", obs_idx - 1), "round": r, "should": should, "allowed": set(should), "called": set()}
+            old = mon.window
+            mon.window = w
+            try:
+                return mon.orig_end(self_m, cur_lattice, obs_idx, obs_next, lattice_best, expand=expand)
+            finally:
+                mon.window = old
+                mon.cnt["end_windows"] = mon.cnt.get("end_windows", 0) + 1
+                for i_, m in should.items():
+                    mon.cnt["end_parents_checked"] = mon.cnt.get("end_parents_checked", 0) + 1
+                    if m.delayed < r:
+                        mon.cnt["end_parents_from_earlier_rounds"] = mon.cnt.get("end_parents_from_earlier_rounds", 0) + 1
+                    if i_ not in w["called"]:
+                        mon.viol.append(("selected-candidate-not-linked-to-next-observation", w["where"],
+                                         f"{m.key} delayed={m.delayed} (round {r}), logprob {m.logprob!r}"))
+                        break
+
         B.BaseMatcher._match_states = ms
         B.BaseMatcher._match_non_emitting_states_inner = inner
+        B.BaseMatcher._match_non_emitting_states_end = end
         B.BaseMatching.next = nxt
         self.installed = True
 
@@ -280,6 +319,7 @@ class WindowMonitor:
         if self.installed:
             B.BaseMatcher._match_states = self.orig_ms
             B.BaseMatcher._match_non_emitting_states_inner = self.orig_inner
+            B.BaseMatcher._match_non_emitting_states_end = self.orig_end
             B.BaseMatching.next = self.orig_next
             self.installed = False
 
